@@ -226,7 +226,7 @@ def g_service(rng, allow_multiple=True):
         fo.O_T = dd({"connection_ID": g_int(rng, 32), "API": g_int(rng, 32)})
         fo.T_O = dd({"connection_ID": g_int(rng, 32), "API": g_int(rng, 32)})
         if rng.random() < 0.4:
-            fo.application = dd({"data": [g_int(rng, 8) for _ in range(rng.choice([2, 4, 6]))]})
+            fo.application = dd({"data": [g_int(rng, 8) for _ in range(rng.choice([1, 2, 3, 4, 6, 7]))]})
         d.forward_open = fo
         return "cm", d
     elif k == "forf":
@@ -248,7 +248,7 @@ def g_service(rng, allow_multiple=True):
         d.update(g_status(rng))
         fc = dd({"connection_serial": g_int(rng, 16), "O_vendor": g_int(rng, 16), "O_serial": g_int(rng, 32)})
         if rng.random() < 0.4:
-            fc.application = dd({"data": [g_int(rng, 8) for _ in range(rng.choice([2, 4, 8]))]})
+            fc.application = dd({"data": [g_int(rng, 8) for _ in range(rng.choice([1, 2, 3, 4, 5, 8]))]})
         d.forward_close = fc
         return "cm", d
     return "router", d
@@ -284,14 +284,25 @@ def g_usend(rng):
         us.service = 0xd2
         us.status = rng.choice([1, 2, 4, 5, 8, 15])
     else:
-        # passed through unparsed; (0x52 / 0xD2 first bytes are the wrapper's own codes: inherently ambiguous)
+        # passed through unparsed.  0x52 / 0xD2 first bytes are the wrapper's own codes: a 0xD2 payload is taken for the
+        # wrapper's error reply when it has at most 6 bytes, a status < 0x10 and no extended status (the ambiguity the
+        # code documents); every other reply starting with 0xD2 - e.g. a Read Tag Fragmented reply carrying a single
+        # one-byte element (7 bytes) - must come through untouched
         while True:
-            _obj, inner = g_service(rng)
+            if rng.random() < 0.3:
+                inner = dd({"service": 0xd2, "status": rng.choice([0, 0, 6]), "read_frag": dd(
+                    {"type": rng.choice([0xc1, 0xc2, 0xc6, 0xc3]), "data": [rng.randrange(2)] * rng.choice([1, 1, 2])})})
+                _obj = "router"
+            else:
+                _obj, inner = g_service(rng)
             env = Env.get()
             o = env.router if _obj == "router" else env.cm
             raw = bytearray(o.produce(inner))
-            if raw[0] not in (0x52, 0xd2):
-                break
+            if raw[0] == 0x52:
+                continue
+            if raw[0] == 0xd2 and len(raw) >= 4 and len(raw) <= 6 and raw[2] < 0x10 and raw[3] == 0:
+                continue
+            break
         us.request = dd()
         us.request.input = raw
     return us
@@ -423,7 +434,8 @@ def render_fields(data, svc_level=True):
             ctx = k.rsplit(".", 1)[0]
             raw = b"".join(int(x).to_bytes(2, "little") for x in v) if svc == 0x83 else bytes(bytearray(v))
             if ctx.endswith("application"):
-                out[k] = hx(raw)
+                # application reply data travels in whole words: an odd count is padded with one zero octet
+                out[k] = hx(raw + b"\x00" * (len(raw) % 2))
             elif svc is not None and svc & 0x80:
                 out["data"] = hx(raw)
             else:
